@@ -24,6 +24,8 @@ from typing import Any
 from .src import Func, Repo, norm, own_nodes
 
 PURE_CALLS = {"partial", "functools.partial"}
+# builtins whose result is an immutable scalar determined by the (pure) arguments: evaluating them again is harmless
+SCALAR_CALLS = {"bool", "len", "type", "isinstance"}
 
 
 def is_pure(e: ast.expr | None, depth: int = 0) -> bool:
@@ -47,6 +49,8 @@ def is_pure(e: ast.expr | None, depth: int = 0) -> bool:
         return all(is_pure(x, depth + 1) for x in e.elts)
     if isinstance(e, ast.Call) and norm(e.func) in PURE_CALLS and not any(k.arg is None for k in e.keywords):
         return all(is_pure(a, depth + 1) for a in e.args) and all(is_pure(k.value, depth + 1) for k in e.keywords)
+    if isinstance(e, ast.Call) and isinstance(e.func, ast.Name) and e.func.id in SCALAR_CALLS and not e.keywords and not any(isinstance(a, ast.Starred) for a in e.args):
+        return all(is_pure(a, depth + 1) for a in e.args)
     return False
 
 
@@ -259,7 +263,7 @@ def propagate_in(f: Func, summ: dict[str, set[str]], res: Any) -> int:
             hdr = [nxt] if not isinstance(nxt, (ast.If, ast.While, ast.For, ast.AsyncFor, ast.With, ast.AsyncWith, ast.Try)) else ([nxt.test] if isinstance(nxt, (ast.If,)) else [])
             if not any(x is uses_direct[0][1] for h in hdr for x in ast.walk(h)):
                 continue
-        creates_object = impure or any(isinstance(x, (ast.Call, ast.Tuple)) for x in ast.walk(val))
+        creates_object = impure or any(isinstance(x, ast.Tuple) or (isinstance(x, ast.Call) and not (isinstance(x.func, ast.Name) and x.func.id in SCALAR_CALLS)) for x in ast.walk(val))
         if creates_object and (len(uses_direct) + len(nested_uses) != 1 or nested_uses or not ok_all):
             continue  # partial(...) / tuples are new objects at every evaluation: only a single use may be replaced
         ids = {id(x) for x in repl}
